@@ -13,8 +13,8 @@ LEVEL = "model_checking"
 TIER = "quick"
 
 # terminal definitions: (lark source, characters it mentions)
-TERMS_Q = [('"a"', "a"), ('"é"', "é"), ('"ü"', "ü"), ('"ß"i', "ßsS"), ("/[ab]+/", "ab"), ('"👋"', "👋"), ('"a"i', "aA"), ("/b[cé]*/", "bcé")]
-TERMS_T = TERMS_Q + [('"ab"', "ab"), ("/[^a]/", "ab"), ('"€"', "€"), ("/é?ü/", "éü"), ('"é"i', "éÉ")]
+TERMS_Q = [('"a"', "a"), ('"é"', "é"), ('"ü"', "ü"), ('"ß"i', "ßsS"), ("/[ab]+/", "ab"), ('"👋"', "👋"), ('"a"i', "aA"), ("/b[cé]*/", "bcé"), ("/[^a]/", "ab")]
+TERMS_T = TERMS_Q + [('"ab"', "ab"), ('"€"', "€"), ("/é?ü/", "éü"), ('"é"i', "éÉ")]
 SHAPES = [
     ("X", "start: X"),
     ("XY", "start: X Y"),
